@@ -321,6 +321,7 @@ def run_threads(sh, s, d, case):
     import ZODB.DemoStorage
     import transaction
     from zv import recfs, objs
+    from ZODB.POSException import ConflictError
     rnd = random.Random(s)
     FSM = recfs.install()
     recfs.LOG.enabled = False
@@ -358,10 +359,35 @@ def run_threads(sh, s, d, case):
                     o = objs.Cell('sp')
                     c.add(o)
                     got[i].append(o._p_oid)
-                if j % 2:
-                    tm.commit()
-                else:
-                    tm.abort()
+                if j % 4 == 1:
+                    # ids issued during an import: export the subtree stored so far and import it again
+                    import io
+                    src = c.root().get('exp%d' % i)
+                    if src is None:
+                        src = c.root()['exp%d' % i] = objs.Cell('exported')
+                        src.refs['child'] = objs.Cell('exported child')
+                        try:
+                            tm.commit()
+                        except ConflictError:
+                            tm.abort()
+                            continue
+                        tm.begin()
+                    f = io.BytesIO()
+                    c.exportFile(src._p_oid, f)
+                    f.seek(0)
+                    imp = c.importFile(f)
+                    got[i].append(imp._p_oid)
+                    got[i].append(imp.refs['child']._p_oid)
+                    c.root()['imp%d-%d' % (i, j)] = imp
+                try:
+                    if j % 2:
+                        tm.commit()
+                    else:
+                        tm.abort()
+                except ConflictError:
+                    tm.abort()             # several threads change the root: legitimate
+        except ConflictError:
+            tm.abort()
         except Exception as e:
             errs.append(repr(e)[:200])
         finally:
